@@ -89,7 +89,44 @@ GLOB_PAT_ALPHA = [b'a', b'b', b'*', b'?', b'[', b']', b'^', b'-', b'\\']
 GLOB_SUB_ALPHA = [b'a', b'b', b'-', b']', b'^', b'\\', b'*', b'[', b'\n']
 
 
+def derive_subject(rng, p):
+    """a subject that is likely to match: literals copied, `?` and `*` instantiated, a class replaced by one of its bytes"""
+    out = bytearray()
+    i = 0
+    while i < len(p):
+        c = p[i]
+        i += 1
+        if c == 42:
+            out += bytes(rng.choice([97, 98, 0x80, 0xff, 10]) for _ in range(rng.choice([0, 0, 1, 2])))
+        elif c == 63:
+            out.append(rng.choice([97, 120, 0xe9, 10]))
+        elif c == 92 and i < len(p):
+            out.append(p[i])
+            i += 1
+        elif c == 91:
+            j = i
+            while j < len(p) and p[j] != 93:
+                j += 2 if p[j] == 92 else 1
+            body = [b for b in p[i:j] if b not in (94, 45, 92)] or [97]
+            out.append(rng.choice(body))
+            i = j + 1
+        else:
+            out.append(c)
+    if rng.random() < 0.3 and out:
+        k = rng.randrange(len(out))
+        out[k] = rng.choice([out[k] ^ 1, 97, 0xff])
+    return bytes(out)
+
+
 def glob_cases_random(rng, n):
+    for p, s0 in _glob_cases_random(rng, n):
+        yield p, s0
+        d = derive_subject(rng, p)
+        if d:
+            yield p, d
+
+
+def _glob_cases_random(rng, n):
     for _ in range(n):
         k = rng.random()
         if k < 0.5:
